@@ -311,8 +311,10 @@ def _zip(p, args, kw):
     """zip of two sequences: pairs in order, as many as the shorter one; zip(*rows) of a non-empty list of n-tuples: its n columns."""
     if kw:
         raise Unsupported('zip keywords')
-    if len(args) == 1 and isinstance(args[0], ObjV) and getattr(args[0], 'rows', None) is not None:
-        rows = args[0].rows
+    if len(args) == 1 and isinstance(args[0], ObjV) and (getattr(args[0], 'rows', None) is not None or getattr(args[0], 'starred', None) is not None):
+        # zip(*rows): rows given by the contract as a row collection (`.rows`) or any contract sequence the engine marked as starred
+        # (`.starred`: the comprehension spelled as an accumulator loop, or left to the engine's own closed form)
+        rows = args[0].rows if getattr(args[0], 'rows', None) is not None else args[0].starred
         probe = seq_at(rows, p.fresh_int('row'))
         if not isinstance(probe, TupleV):
             raise Unsupported('zip(*rows) of rows that are not tuples')
